@@ -189,4 +189,26 @@ theorem run_of_reach {maxTicks : Nat} {s s' : St} {st : Stop} (h : Reach seq bas
     simp only [run, this, if_false, hs]
     exact hn f (by omega)
 
+/-- whatever the fuel and the tick limit: a run along a path that ends in stop `st` can only
+stop with `st`, run out of fuel, or hit the tick limit -/
+theorem run_stop_of_reach {maxTicks : Nat} {s s' : St} {st : Stop} (h : Reach seq base mj s s')
+    (he : step seq base mj s' = .error st) (fuel : Nat) :
+    (run seq base mj maxTicks fuel s).2 = .fuel ∨ (run seq base mj maxTicks fuel s).2 = .tooManyTicks ∨
+      (run seq base mj maxTicks fuel s).2 = st := by
+  induction h generalizing fuel with
+  | refl s =>
+    cases fuel with
+    | zero => exact .inl rfl
+    | succ f =>
+      by_cases hc : f % 64 = 0 ∧ s.out.length > maxTicks
+      · right; left; simp [run, hc]
+      · right; right; simp [run, hc, he]
+  | @head s s1 s2 hs hm hr ih =>
+    cases fuel with
+    | zero => exact .inl rfl
+    | succ f =>
+      by_cases hc : f % 64 = 0 ∧ s.out.length > maxTicks
+      · right; left; simp [run, hc]
+      · simp only [run, hc, if_false, hs]; exact ih he f
+
 end Ctrmml.Codec
